@@ -34,6 +34,7 @@ type lifeScn struct {
 	Late    bool     `json:"late,omitempty"` // ... after 300 ms
 	Chan    int      `json:"chan,omitempty"` // 0 or 1
 	Watch   int      `json:"watch,omitempty"` // watchdog in ms (default 1500)
+	Burst   bool     `json:"burst,omitempty"` // the calls are started back to back, without letting each one settle
 	Ops     []lifeOp `json:"ops"`
 }
 
@@ -196,7 +197,13 @@ func runLife(tr *Tracer, cur *int64, scn *lifeScn) {
 	r.ch = ch
 	chid := ch.VerifChannelID()
 	r.emit(Ev{"ev": "Setup", "k": scn.K, "chan": chid, "answers": scn.Answers})
-	settle := func() { time.Sleep(40 * time.Millisecond) }
+	settle := func() {
+		if scn.Burst {
+			runtime.Gosched()
+			return
+		}
+		time.Sleep(40 * time.Millisecond)
+	}
 	for _, op := range scn.Ops {
 		op := op
 		switch op.Op {
@@ -239,6 +246,8 @@ func runLife(tr *Tracer, cur *int64, scn *lifeScn) {
 				switch {
 				case err == nil && pkg != nil:
 					return "pkg", nil
+				case err == nil:
+					return "nilpkg", nil
 				case errors.Is(err, cbErr):
 					return "cberr", nil
 				}
@@ -251,6 +260,9 @@ func runLife(tr *Tracer, cur *int64, scn *lifeScn) {
 				pkg, err := ch.NextPackage(ctx, wait)
 				if err != nil {
 					return lifeOutcome(err), nil
+				}
+				if pkg == nil {
+					return "nilpkg", nil // neither a package nor an error
 				}
 				v := 0
 				if d, ok := pkg.(*tds.DonePackage); ok {
@@ -442,6 +454,14 @@ func lifeMain(args []string) error {
 			// still ends the reader
 			scns = append(scns, lifeScn{K: k, Answers: true, Ops: []lifeOp{{Op: "stray", N: 10 + 2*k}, {Op: "connclose"}}})
 			scns = append(scns, lifeScn{K: k, Answers: true, Chan: 1, Ops: []lifeOp{{Op: "stray", N: 14}, {Op: "close"}, {Op: "connclose"}}})
+			// calls started at the same moment as Close / Conn.Close (no settling in between): whatever the
+			// interleaving, each returns a package, the closed condition or an error - never (nil, nil)
+			for rep := 0; rep < 6; rep++ {
+				scns = append(scns, lifeScn{K: k, Answers: true, Chan: rep % 2, Burst: true, Ops: []lifeOp{{Op: "next"}, {Op: "close"}, {Op: "next"},
+					{Op: "next", Wait: bp(false)}, {Op: "send"}, {Op: "next"}}})
+				scns = append(scns, lifeScn{K: k, Answers: true, Chan: rep % 2, Burst: true, Ops: []lifeOp{{Op: "peer", N: 1}, {Op: "connclose"}, {Op: "next"},
+					{Op: "next"}, {Op: "send"}}})
+			}
 			// sends with cancelled contexts
 			scns = append(scns, lifeScn{K: k, Answers: true, Ops: []lifeOp{{Op: "send", Ctx: "cancelled"}, {Op: "send"}, {Op: "send", Ctx: "cancelled"}}})
 		}
